@@ -34,6 +34,7 @@ FIXED = [
  ("C12", "e0310b0", "write of a 2-entry database then of a 1-entry database to db on the in-memory store: no truncation, read returned the new value followed by the old tail, Getdb failed to parse"),
  ("C13", "0b385e3", "SignedData whose signed attributes lack the contentType attribute: Verify panicked in Attributes.Marshal (cryptobyte BytesOrPanic: invalid OID)"),
  ("C04", "0b385e3", "valid blob with the contentType attribute removed: Verify panicked instead of returning a negative result or error"),
+ ("C18", "f437fe9", "BootOrder with 64 entries read through the legacy efi.GetBootOrder: the loop bound data.Len() shrank while reading, only the first 32 names were returned"),
  ("C05", "44b99d3", "SignPKCS7 with a content type OID whose encoding is longer than ~13 bytes: signed attributes not in DER SET OF order (contentType after signingTime needed), go.mozilla.org/pkcs7 rejected the signature"),
 ]
 
